@@ -197,7 +197,7 @@ func voteSetCommit(t *rapid.T, vs *valSet, h uint64, r uint32, main int, hist *h
 }
 
 var commitMutations = []string{"size-1", "size+1", "height-field", "height-whole", "id-field", "id-whole", "round-field",
-	"bad-sig", "bad-sig", "foreign-sig", "address", "flag-swap", "dup-signer", "bad-flag", "absent-leftover", "timestamp", "other-set", "other-set"}
+	"bad-sig", "bad-sig", "foreign-sig", "address", "flag-swap", "dup-signer", "bad-flag", "absent-leftover", "timestamp", "other-set", "other-set", "other-chain"}
 
 func TestCommitVerify(t *testing.T) {
 	rapid.Check(t, func(t *rapid.T) {
@@ -233,7 +233,7 @@ func TestCommitVerify(t *testing.T) {
 		}
 		hist.add("commit[%s]", flagsText(c))
 
-		verifySet, argID, argH := vs, id, h
+		verifySet, argID, argH, argChain := vs, id, h, chainID
 		nmut := rapid.SampledFrom([]int{0, 0, 1, 1, 1, 1, 2}).Draw(t, "nmut")
 		for k := 0; k < nmut; k++ {
 			mu := rapid.SampledFrom(commitMutations).Draw(t, "mut")
@@ -374,6 +374,8 @@ func TestCommitVerify(t *testing.T) {
 				}
 				c.Signatures[pos].Timestamp = c.Signatures[pos].Timestamp.Add(time.Second)
 				desc += fmt.Sprintf("@%d", pos)
+			case "other-chain": // a genuine commit of this chain offered to a verifier of another chain
+				argChain = otherChain
 			case "other-set": // verified against another validator set than the one that signed
 				ks := make([]int, n)
 				ps := make([]int64, n)
@@ -417,13 +419,13 @@ func TestCommitVerify(t *testing.T) {
 		hist.add("final[%s] cheight=%d cround=%d cid=%s", flagsText(c), c.Height, c.Round, idName(c.BlockID))
 
 		var err error
-		if callGuard(t, hist.text, func() { err = verifySet.set.VerifyCommit(chainID, argID, argH, c) }) {
+		if callGuard(t, hist.text, func() { err = verifySet.set.VerifyCommit(argChain, argID, argH, c) }) {
 			err = fmt.Errorf("panic (known finding)")
 			classes["known-panic"] = true
 		}
 		accepted := err == nil
-		p := commitPredicate(verifySet, chainID, argID, argH, c)
-		wf := wellFormed(verifySet, chainID, argID, argH, c)
+		p := commitPredicate(verifySet, argChain, argID, argH, c)
+		wf := wellFormed(verifySet, argChain, argID, argH, c)
 		if accepted && !p.quorum {
 			key := acceptKey(verifySet, p.power, p.nonAbsent)
 			ev.Violation(t, key, hist.text(), "VerifyCommit accepted, but the validators at the commit's indices that genuinely signed %s at h=%d r=%d hold %v of %v (non-absent %v)",
